@@ -318,4 +318,228 @@ theorem readElem_formatElem (w : Wall) (hb : Bounded w) (e : Elem) (he : ∀ n, 
       · have : ('+' == '-') = false := by decide
         simp [hneg, hr]; omega
 
+
+def FracOK (l : List Elem) : Prop := ∀ e ∈ l, ∀ n, e = .frac0 n → 1 ≤ n ∧ n ≤ 9
+
+theorem shapeOf_append (a b : S) : shapeOf (a ++ b) = shapeOf a ++ shapeOf b := by simp [shapeOf]
+
+theorem shape_format (w : Wall) (hb : Bounded w) (l : List Elem) (hl : FracOK l) :
+    shapeOf (format l w) = l.flatMap (elemShape (tzv w)) := by
+  induction l with
+  | nil => rfl
+  | cons e r ih =>
+    have he : ∀ n, e = .frac0 n → n ≤ 9 := fun n h => (hl e (by simp) n h).2
+    simp only [format, List.flatMap_cons] at ih ⊢
+    rw [shapeOf_append, shape_formatElem w hb e he, ih (fun e' h' => hl e' (List.mem_cons_of_mem _ h'))]
+
+theorem readAll_format (w : Wall) (hb : Bounded w) (l : List Elem) (hl : FracOK l) :
+    readAll l (l.map (formatElem w)) = some (l.flatMap (assign w)) := by
+  induction l with
+  | nil => rfl
+  | cons e r ih =>
+    simp only [List.map_cons, readAll, List.flatMap_cons]
+    rw [readElem_formatElem w hb e (hl e (by simp)), ih (fun e' h' => hl e' (List.mem_cons_of_mem _ h'))]
+    rfl
+
+theorem get_set (w : Wall) (k k' : Kind) (v : Int) : (w.set k v).get k' = if k' = k then v else w.get k' := by
+  cases k <;> cases k' <;> simp [Wall.set, Wall.get]
+
+theorem get_applyAll (f : Kind → Int) (as : List (Kind × Int)) (h : ∀ a ∈ as, a.2 = f a.1) (w0 : Wall) (k : Kind) :
+    (applyAll as w0).get k = if as.any (fun a => a.1 == k) then f k else w0.get k := by
+  induction as generalizing w0 with
+  | nil => simp [applyAll]
+  | cons a r ih =>
+    have ha := h a (by simp)
+    have hr := ih (fun a' h' => h a' (List.mem_cons_of_mem _ h')) (w0.set a.1 a.2)
+    simp only [applyAll, List.foldl_cons] at hr ⊢
+    rw [hr, get_set]
+    by_cases hk : a.1 = k
+    · have hb : (a.1 == k) = true := by simp [hk]
+      simp only [List.any_cons, hb, Bool.true_or, if_true]
+      rw [if_pos hk.symm, ha, hk]
+      split <;> rfl
+    · have hb : (a.1 == k) = false := by simp [hk]
+      simp only [List.any_cons, hb, Bool.false_or]
+      rw [if_neg (Ne.symm hk)]
+
+theorem Wall.ext_get (a b : Wall) (h : ∀ k, a.get k = b.get k) : a = b := by
+  cases a; cases b
+  have h1 := h .year; have h2 := h .month; have h3 := h .day; have h4 := h .hour
+  have h5 := h .minute; have h6 := h .second; have h7 := h .nanos; have h8 := h .offset
+  simp [Wall.get] at h1 h2 h3 h4 h5 h6 h7 h8
+  simp [*]
+
+/-- the layout can express the reading: every field it writes is written exactly (no truncation)
+    and every field it does not write has the value `time.Parse` starts from -/
+def Expressible (l : List Elem) (w : Wall) : Prop :=
+  (∀ e ∈ l, ∀ a ∈ assign w e, a.2 = w.get a.1) ∧
+  (∀ k, (∀ e ∈ l, ∀ a ∈ assign w e, a.1 ≠ k) → w.get k = Wall.zero.get k)
+
+theorem applyAll_assign (l : List Elem) (w : Wall) (hx : Expressible l w) :
+    applyAll (l.flatMap (assign w)) Wall.zero = w := by
+  apply Wall.ext_get
+  intro k
+  rw [get_applyAll w.get]
+  · split
+    · rfl
+    · rename_i hany
+      apply (hx.2 k _).symm
+      intro e he a ha hk
+      apply hany
+      simp only [List.any_eq_true, List.mem_flatMap]
+      exact ⟨a, ⟨e, he, ha⟩, by simp [hk]⟩
+  · intro a ha
+    simp only [List.mem_flatMap] at ha
+    obtain ⟨e, he, hae⟩ := ha
+    exact hx.1 e he a hae
+
+def ShapeOK (l : List Elem) : Prop :=
+  ∀ v : TZV, splitW l (l.flatMap (elemShape v)) = some (l.map fun e => (elemShape v e).length)
+
+instance (l : List Elem) : Decidable (ShapeOK l) :=
+  decidable_of_iff (∀ v ∈ [TZV.z, .plus, .minus], splitW l (l.flatMap (elemShape v)) = some (l.map fun e => (elemShape v e).length))
+    ⟨fun h v => h v (by cases v <;> simp), fun h v _ => h v⟩
+
+theorem parseWith_format (l : List Elem) (hl : FracOK l) (hs : ShapeOK l) (w : Wall) (hb : Bounded w)
+    (hx : Expressible l w) : parseWith l (format l w) = some w := by
+  unfold parseWith
+  rw [shape_format w hb l hl, hs (tzv w)]
+  have hw : (l.map fun e => (elemShape (tzv w) e).length) = (l.map (formatElem w)).map List.length := by
+    rw [List.map_map]; apply List.map_congr_left
+    intro e he; simp only [Function.comp]
+    exact (length_formatElem w hb e (fun n h => (hl e he n h).2)).symm
+  have hf : format l w = (l.map (formatElem w)).flatten := by simp [format, List.flatMap]
+  simp only [hw, hf, splitBy_flatten, readAll_format w hb l hl, applyAll_assign l w hx]
+  have := hb.day
+  rw [if_neg (by simp; omega)]
+
+
+theorem parseWith_none_of_shape (l : List Elem) (s : S) (h : splitW l (shapeOf s) = none) : parseWith l s = none := by
+  simp [parseWith, h]
+
+theorem parseFirst_skip (pre : List (List Elem)) (l : List Elem) (post : List (List Elem)) (s : S) (w : Wall)
+    (hpre : ∀ lj ∈ pre, parseWith lj s = none) (hl : parseWith l s = some w) :
+    parseFirst (pre ++ l :: post) s = some (pre.length, w) := by
+  induction pre with
+  | nil => simp [parseFirst, hl]
+  | cons p r ih =>
+    have := ih (fun lj h => hpre lj (List.mem_cons_of_mem _ h))
+    simp [parseFirst, hpre p (by simp), this]
+
+def fracOKb (l : List Elem) : Bool := l.all fun e => match e with | .frac0 n => decide (1 ≤ n) && decide (n ≤ 9) | _ => true
+
+theorem fracOK_of (l : List Elem) (h : fracOKb l = true) : FracOK l := by
+  intro e he n hn
+  simp only [fracOKb, List.all_eq_true] at h
+  have := h e he
+  subst hn
+  simpa using this
+
+def tzvs : List TZV := [.z, .plus, .minus]
+
+/-- no earlier layout of the list accepts the shape of a string rendered with a later one -/
+def prefixesDistinct (ls : List (List Elem)) : Bool :=
+  (List.range ls.length).all fun i =>
+    match ls[i]? with
+    | some l => (ls.take i).all fun lj => tzvs.all fun v => (splitW lj (l.flatMap (elemShape v))).isNone
+    | none => true
+
+def shapeOKb (l : List Elem) : Bool :=
+  tzvs.all fun v => splitW l (l.flatMap (elemShape v)) == some (l.map fun e => (elemShape v e).length)
+
+theorem shapeOK_of (l : List Elem) (h : shapeOKb l = true) : ShapeOK l := by
+  intro v
+  simp only [shapeOKb, tzvs, List.all_cons, List.all_nil, Bool.and_true, Bool.and_eq_true, beq_iff_eq] at h
+  cases v
+  · exact h.1
+  · exact h.2.1
+  · exact h.2.2
+
+/-- rendering with the i-th layout of an ordered list and re-parsing with the list returns the
+    same layout and the same reading -/
+theorem parseFirst_format (ls : List (List Elem)) (i : Nat) (l : List Elem) (hi : ls[i]? = some l)
+    (hd : prefixesDistinct ls = true) (hf : fracOKb l = true) (hs : shapeOKb l = true)
+    (w : Wall) (hb : Bounded w) (hx : Expressible l w) :
+    parseFirst ls (format l w) = some (i, w) := by
+  have hlt : i < ls.length := by
+    rcases Nat.lt_or_ge i ls.length with h | h
+    · exact h
+    · rw [List.getElem?_eq_none h] at hi; cases hi
+  have hsplit : ls = ls.take i ++ l :: ls.drop (i + 1) := by
+    have hget : ls[i] = l := by
+      have := List.getElem?_eq_getElem hlt; rw [this] at hi; exact Option.some.inj hi
+    rw [← hget]; simp
+  have hlen : (ls.take i).length = i := by simp; omega
+  have hpw := parseWith_format l (fracOK_of l hf) (shapeOK_of l hs) w hb hx
+  have hpre : ∀ lj ∈ ls.take i, parseWith lj (format l w) = none := by
+    intro lj hlj
+    apply parseWith_none_of_shape
+    rw [shape_format w hb l (fracOK_of l hf)]
+    simp only [prefixesDistinct, List.all_eq_true, List.mem_range] at hd
+    have := hd i hlt
+    rw [hi] at this
+    simp only [List.all_eq_true] at this
+    have h3 := this lj hlj (tzv w) (by cases tzv w <;> simp [tzvs])
+    simpa using h3
+  have := parseFirst_skip (ls.take i) l (ls.drop (i + 1)) (format l w) w hpre hpw
+  rw [← hsplit, hlen] at this
+  exact this
+
+def kindOf : Elem → List Kind
+  | .lit _ => [] | .year4 => [.year] | .month2 => [.month] | .day2 => [.day] | .hour => [.hour]
+  | .minute2 => [.minute] | .second2 => [.second] | .frac0 _ => [.nanos] | .tzColon => [.offset]
+
+theorem expressible_of (l : List Elem) (w : Wall)
+    (h1 : ∀ n, Elem.frac0 n ∈ l → w.nanos % pow10 (9 - n) = 0)
+    (h2 : ∀ k, k ∉ l.flatMap kindOf → w.get k = Wall.zero.get k) : Expressible l w := by
+  constructor
+  · intro e he a ha
+    cases e <;> simp [assign] at ha <;> subst ha <;> simp [Wall.get]
+    rename_i n
+    exact Int.ediv_mul_cancel (Int.dvd_of_emod_eq_zero (h1 n he))
+  · intro k hk
+    apply h2
+    intro hmem
+    simp only [List.mem_flatMap] at hmem
+    obtain ⟨e, he, hke⟩ := hmem
+    cases e <;> simp [kindOf] at hke <;> subst hke <;> exact hk _ he (_, _) (by simp only [assign]; exact List.mem_singleton.mpr rfl) rfl
+
+
+theorem natDigits_head_digit (n : Nat) : ∃ c r, natDigits n = c :: r ∧ isDigit c = true := by
+  have hne := natDigits_ne_nil n
+  have had := allDigits_natDigits n
+  cases h : natDigits n with
+  | nil => exact absurd h hne
+  | cons c r => rw [h] at had; simp only [List.all_cons, Bool.and_eq_true] at had; exact ⟨c, r, rfl, had.1⟩
+
+theorem parseIntGo_renderInt (i : Int) (h : -2147483648 ≤ i ∧ i < 2147483648) :
+    parseIntGo (renderInt i) 32 = some i := by
+  have had := allDigits_natDigits i.natAbs
+  have hne := natDigits_ne_nil i.natAbs
+  have hval := digitsVal_natDigits i.natAbs
+  unfold renderInt
+  by_cases hneg : i < 0
+  · simp only [hneg, if_true, parseIntGo]
+    have he : (natDigits i.natAbs).isEmpty = false := by simp [hne]
+    simp only [he, had, Bool.not_true, Bool.or_false, hval]
+    have hi : -(i.natAbs : Int) = i := by omega
+    have h2 : ((2:Int) ^ (32 - 1)) = 2147483648 := by rfl
+    simp only [if_true, hi, h2]
+    simp; omega
+  · simp only [hneg, if_false]
+    obtain ⟨c, r, hcr, hc⟩ := natDigits_head_digit i.natAbs
+    have hp : c ≠ '+' := by intro hc'; rw [hc'] at hc; exact absurd hc (by decide)
+    have hm : c ≠ '-' := by intro hc'; rw [hc'] at hc; exact absurd hc (by decide)
+    rw [hcr] at had hval ⊢
+    unfold parseIntGo
+    split
+    · rename_i heq; simp at heq; exact absurd heq.1 hp
+    · rename_i heq; simp at heq; exact absurd heq.1 hm
+    · split
+      · rename_i heq; simp at heq; exact absurd heq.1 hm
+      · have h2 : ((2:Int) ^ (32 - 1)) = 2147483648 := by rfl
+        have hi : (i.natAbs : Int) = i := by omega
+        simp only [had, hval, h2, hi]
+        simp; omega
+
 end FP.Lemmas.Text
